@@ -33,7 +33,7 @@ fn same(a: &Option<Vec<u8>>, b: &Option<Vec<u8>>) -> bool {
 
 /// HTTP: "GET /t HTTP/1.v CRLF CRLF" with symbolic target byte and version digit, cut at
 /// every position in lo..hi
-fn http_flow(lo: usize, hi: usize, inside_signature: bool) {
+fn http_flow(lo: usize, hi: usize, _inside_signature: bool) {
     lazy_static::initialize(&PROTO_SMACK);
     log::set_max_level(log::LevelFilter::Off);
     let mut s = *b"GET /t HTTP/1.v\r\n\r\n";
@@ -53,12 +53,8 @@ fn http_flow(lo: usize, hi: usize, inside_signature: bool) {
         let mut tb = fresh();
         let r1 = repl(&s[..cut], &masscanned, &mut ci, Some(&mut tb));
         let r2 = repl(&s[cut..n], &masscanned, &mut ci, Some(&mut tb));
-        if inside_signature && crate::verif_known::C11_CUT_INSIDE_SIGNATURE_HTTP {
-            kani::cover!(r2.is_none(), "KF:c11.cut_inside_signature.http");
-        } else {
-            assert!(r1.is_none(), "C11: something other than a bare ACK sent before the request is complete");
-            assert!(same(&r2, &whole), "C11: reply depends on how the HTTP request is cut into segments");
-        }
+        assert!(r1.is_none(), "C11: something other than a bare ACK sent before the request is complete");
+        assert!(same(&r2, &whole), "C11: reply depends on how the HTTP request is cut into segments");
         std::mem::forget(tb);
         cut += 1;
     }
@@ -68,7 +64,7 @@ fn http_flow(lo: usize, hi: usize, inside_signature: bool) {
 
 /// ONC-RPC over TCP: 44-byte call (NULL procedure, version 2..4) with symbolic XID /
 /// program, cut at every position in lo..hi
-fn rpc_flow(lo: usize, hi: usize, inside_signature: bool) {
+fn rpc_flow(lo: usize, hi: usize, _inside_signature: bool) {
     lazy_static::initialize(&PROTO_SMACK);
     log::set_max_level(log::LevelFilter::Off);
     let mut s = [0u8; 44];
@@ -92,15 +88,11 @@ fn rpc_flow(lo: usize, hi: usize, inside_signature: bool) {
         let mut tb = fresh();
         let r1 = repl(&s[..cut], &masscanned, &mut ci, Some(&mut tb));
         let r2 = repl(&s[cut..n], &masscanned, &mut ci, Some(&mut tb));
-        if inside_signature && crate::verif_known::C11_CUT_INSIDE_SIGNATURE_RPC {
-            kani::cover!(r2.is_none(), "KF:c11.cut_inside_signature.rpc");
-        } else {
-            assert!(r1.is_none(), "C11: something other than a bare ACK sent before the call is complete");
-            assert!(r2.is_some() && r2.as_ref().unwrap().len() == whole.as_ref().unwrap().len(), "C11: reply depends on how the ONC-RPC call is cut into segments");
-            let a = r2.unwrap();
-            let b = whole.as_ref().unwrap();
-            assert!(a[4] == b[4] && a[7] == b[7] && a[a.len() - 1] == b[b.len() - 1], "C11: reply content depends on segmentation");
-        }
+        assert!(r1.is_none(), "C11: something other than a bare ACK sent before the call is complete");
+        assert!(r2.is_some() && r2.as_ref().unwrap().len() == whole.as_ref().unwrap().len(), "C11: reply depends on how the ONC-RPC call is cut into segments");
+        let a = r2.unwrap();
+        let b = whole.as_ref().unwrap();
+        assert!(a[4] == b[4] && a[7] == b[7] && a[a.len() - 1] == b[b.len() - 1], "C11: reply content depends on segmentation");
         std::mem::forget(tb);
         cut += 1;
     }
@@ -159,7 +151,6 @@ fn c11_http_flow_cut_17() {
 //# encodes: proto::repl (TCP mode, control block), proto::http::repl, http_parse, smack::Smack::search_next
 //# bounds: stream "GET /t HTTP/1.v CRLF CRLF" (19 bytes; target byte and version digit symbolic) on a fresh flow, cut into two segments at position 2; compared with the unsegmented stream
 //# stubs: proto_init / http_init -> real tables; chrono::Utc::now and DateTime::to_rfc2822 -> fixed instant / fixed text
-//# known: c11.cut_inside_signature.http
 //# out: other cut positions at flow level (parser-level cuts at every position: c11_http_stream_cuts_*)
 //# cover: all cuts examined
 #[kani::proof]
@@ -195,7 +186,6 @@ fn c11_rpc_flow_cut_30() {
 //# encodes: proto::repl (TCP mode, control block), proto::rpc::repl_tcp, rpc_parse, build_repl
 //# bounds: 44-byte ONC-RPC NULL call over TCP (XID and program low byte symbolic, XID high byte non-zero) on a fresh flow, cut into two segments at position 12; compared with the unsegmented stream
 //# stubs: proto_init -> real tables
-//# known: c11.cut_inside_signature.rpc
 //# out: other cut positions at flow level (parser-level cuts: c16_rpc_tcp_parse_cut*)
 //# cover: all cuts examined
 #[kani::proof]
